@@ -8,6 +8,9 @@ INVARIANT TransitiveIsClosureMinusTargets
 INVARIANT NoLoadOutsideClosure
 INVARIANT LoadedOncePerFile
 INVARIANT OutsideIrrelevant
+INVARIANT StackBounded
+INVARIANT LogBalanced
+INVARIANT LogInsideClosure
 INVARIANT PrintOnce
 INVARIANT PrintOwnPath
 INVARIANT ErrPathIsFaultFile
